@@ -169,14 +169,36 @@ class C05(Check):
                             'overlap graph connected (guaranteed by get_series_time_offsets, proved in C08)',
                             'zero residual sums are the stationarity condition of a convex quadratic, hence the global minimum']
         self.stubs = fit_common.STUBS[:2]
-        self.outside = ['more than %d series / levels' % max(max(s) for s in sizes), 'DB-level tables written by rise/recession (C13 harness)']
+        self.outside = ['more than %d series / levels' % max(max(s) for s in sizes), 'datasets with more than 5000 equations (no size-dependent code path exists on the unchanged tree)']
         for (S, L) in sizes:
             exp = symx.explore(harness, {'S': S, 'L': L, 'seed': self.seed, 'replay_every': 5, 'shuffle': S <= 3,
                                          'nra': quick and S <= 2, 'ids': [3 * s + 1 for s in range(S)]},
                                name='find_offsets[%dx%d]' % (S, L))
             self.absorb(exp, need_paths=2)
+        # the tables written by `rise` and `recession` (with and without a reference level):
+        # residual sums of the stored offsets and crossings, on the C13 patterned record
+        from checks import C13
+        self.unit('spowtd.rise', 'compute_rise_offsets')
+        self.unit('spowtd.recession', 'compute_offsets')
+        self.stubs += ['sqlite3 -> vf.symsql; interp1d / brentq contracts (table-level harness)']
+        cfgs = []
+        for which in ('rise', 'recession'):
+            cfgs.append({'pattern': 'A', 'grid': '1', 'ongrid': 'all', 'which': which, 'reference': C13.pick_reference(which), 'props': ('C05',)})
+            cfgs.append({'pattern': 'A', 'grid': '1', 'ongrid': 'alternate' if quick else 'none', 'which': which, 'props': ('C05',)})
+        self.bounds['tables'] = [C13.config_name(c) for c in cfgs]
+        for c in cfgs:
+            exp = symx.explore(C13.harness, c, name='tables_' + C13.config_name(c), engine_kw={'query_timeout_ms': 60000})
+            self.absorb(exp, need_paths=1)
 
     def replay(self, failure):
+        if failure['harness'].startswith('tables_'):
+            from checks import C13
+            c = C13.config_from_name(failure['harness'])
+            ok, info = C13.replay_real(c, model_fractions(failure.get('model')), c['which'])
+            info['expected'] = failure.get('detail')
+            if failure.get('kind') == 'exception':
+                return 'error' in info, info
+            return any('residuals' in p_ for p_ in info.get('problems', [])), info
         S, L = [int(x) for x in failure['harness'].split('[')[1].rstrip(']').split('x')]
         ids = [3 * s + 1 for s in range(S)]
         m = model_fractions(failure.get('model'))
